@@ -251,6 +251,13 @@ func runC19(c *Ctx) error {
 		for k := 0; k < 25; k++ {
 			cs.Queries = append(cs.Queries, c06GenQuery(gr))
 		}
+		// directed (seeded change C19-m6 was once caught only on some seeds): an excluding directive on a fragment
+		// whose type condition is the union itself, and on fragments on its members
+		cs.Queries = append(cs.Queries,
+			"query Q { us { ... on fdU @skip(if: true) { ... on A { id } ... on B { id } } ... on A { k: id } } }",
+			"query Q { us { ... on fdU @include(if: false) { __typename } ... on B { k: id } } }",
+			"query Q($v: Boolean = true) { us { ... on fdU @skip(if: $v) { ... on A { id } } ... on A @skip(if: $v) { id } ... on B { k: id } } }",
+			"query Q { us { ... on A @include(if: false) { id } ... on B @skip(if: true) { id } ... on A { k: id } } }")
 		c06One(c, nil, cs)
 		c.Rep.Count("gateway_worlds")
 	}
